@@ -176,6 +176,40 @@ func runC17(c *Ctx) {
 		}
 		c.Require("C17.R11 channel-per-request", FuncKey(send)+": registered channel", p.InstrPos(reg), "the channel stored in resCh is created by make() in this call (never reused across requests)", fresh, "registered value: "+ff.Term(reg.Value).String())
 	}
+	// … and it has room for the one reply: the receiver's delivery is a non-blocking send (it
+	// must not wait while holding the table's lock), which is dropped when nobody is receiving
+	// at that instant — on a channel without buffer a reply that arrives before the requester
+	// reaches its select is lost and the request times out although the peer answered
+	{
+		nonBlockingDelivery := false
+		for _, b := range blocksDeep(onResp) {
+			for _, in := range b.Instrs {
+				if sel, ok := in.(*ssa.Select); ok && !sel.Blocking {
+					for _, st := range sel.States {
+						if st.Dir == types.SendOnly {
+							nonBlockingDelivery = true
+						}
+					}
+				}
+			}
+		}
+		capOK, capStr := !nonBlockingDelivery, "delivery blocks"
+		if nonBlockingDelivery {
+			mk, _ := stripConv(reg.Value).(*ssa.MakeChan)
+			if mk == nil {
+				if rt := ff.Term(reg.Value); rt.Op == "make" && rt.Sym == "chan" && rt.V != nil {
+					mk, _ = stripConv(rt.V).(*ssa.MakeChan)
+				}
+			}
+			if mk != nil {
+				capStr = ff.Term(mk.Size).String()
+				if k, isC := constInt(mk.Size); isC && k >= 1 {
+					capOK = true
+				}
+			}
+		}
+		c.Require("C17.R11 channel-has-room-for-the-reply", FuncKey(send)+": registered channel", p.InstrPos(reg), "the registered channel is buffered (capacity >= 1) because the reply is delivered by a non-blocking send", capOK, "capacity: "+capStr)
+	}
 	// deletes happen under the table's lock: covered by R4 field guard
 
 	// ---- R9 select shape
